@@ -117,3 +117,116 @@ def rand_jobs(seed, n, families, crashes=(0, 1), wfaults=0, rfaults=0, probes=0,
             scen["htlcs"] = []
         jobs.append({"run": start_run + k, "scen": scen, "rand": r, "probes": probes, "tag": fam})
     return jobs
+
+
+# ---------------------------------------------------------------------------------------------
+# Classification space (C10, C13): every combination of invoice shape x amount field x flags.
+CLASS_A = 10
+CLASS_INVS = [
+    {"hash": "h1", "amt": CLASS_A},                     # 1 fixed amount, hash equal
+    {"hash": "h1", "amt": 0},                           # 2 amountless, hash equal
+    {"hash": "h2", "amt": CLASS_A},                     # 3 fixed amount, other hash
+    {"hash": "h2", "amt": 0},                           # 4 amountless, other hash
+    {"hash": "h1", "amt": CLASS_A, "hint": True},       # 5 self route hint
+    {"hash": "h1", "amt": 0, "hint": True},             # 6
+    {"hash": "h1", "amt": CLASS_A, "form": "badsig"},   # 7 signature does not verify against the named payee
+    {"hash": "h1", "amt": CLASS_A, "form": "garbage"},  # 8 not an invoice
+    {"hash": "h1", "amt": CLASS_A, "form": "nonutf8"},  # 9
+    {"hash": "h1", "amt": CLASS_A, "form": "truncated"},  # 10
+    {"hash": "h2", "amt": CLASS_A, "hint": True},       # 11
+    {"hash": "h1", "amt": CLASS_A, "payee": 2},         # 12 another payee
+]
+
+def class_cases():
+    """the abstract request space, one HTLC per case"""
+    cfgbase = dict(CFG_A)
+    h0, pd = cfgbase["h0"], cfgbase["pdelta"]
+    decls = [(-1, 0)]
+    for k in range(0, 10):
+        for val in (CLASS_A, CLASS_A + 1, 0):
+            enc = val % (256 ** k) if k <= 8 else val
+            decls.append((k, enc))
+    decls = sorted(set(decls))
+    for selfhints in (True, False):
+        for inv in range(0, len(CLASS_INVS) + 1):
+            for (dl, dv) in decls:
+                for fwdmsat in (True, False):
+                    for fwd in (False, True):
+                        if fwd and (dl not in (-1, 8) or not fwdmsat):
+                            continue   # a plain forward: the other dimensions are irrelevant, sample them
+                        yield selfhints, H("h1", inv, 100, 100, h0 + pd + 50, pd + 50, decl=dv, decl_len=dl, fwd=fwd, fwdmsat=fwdmsat)
+
+RAW_META = [
+    "", "00", "fd", "fd01", "fe000080", "ff", "0100", "0101aa", "01", "fe000080e9", "fe000080e900",
+    "fe000080e903616263", "fe000080eb0105",
+    # a length prefix in front of an inner stream that names the invoice / amount record:
+    # the un-prefixed reader sees garbage, the prefixed one (default_response) sees the record
+    "09fe000080e903616263", "07fe000080eb0105", "020100", "0afe000080e903616263aa",
+]
+
+def class_jobs(seed, tier, start_run=1):
+    rng = random.Random(seed)
+    jobs = []
+    runno = start_run
+    cases = list(class_cases())
+    if tier != "thorough":
+        # every invoice x amount-field x selfhints combination; the two flags sampled
+        keep = []
+        for c in cases:
+            sh, h = c
+            if h["fwd"] or not h["fwdmsat"]:
+                if rng.random() < 0.25:
+                    keep.append(c)
+            else:
+                keep.append(c)
+        cases = keep
+    extras = [[], [(10, "aabb")], [(18, ""), (65537, "01")], [(1, "00"), (12, "ff" * 3), (4294967297, "05")]]
+    for sh, h in cases:
+        cfg = dict(CFG_A); cfg["selfhints"] = sh
+        h = dict(h); h["extra"] = rng.choice(extras)
+        sc = {"cfg": cfg, "invs": CLASS_INVS, "htlcs": [h], "probe": []}
+        jobs.append({"run": runno, "scen": sc, "sched": [{"a": "htlc", "i": 1}], "drain": True, "tag": "class", "payload": True,
+                     "rand": {"seed": rng.getrandbits(40), "steps": 0}})
+        runno += 1
+    # metadata that is not a well-formed trampoline request, with other records around it
+    for raw in RAW_META:
+        for ex in extras:
+            for fwd in (False, True):
+                cfg = dict(CFG_A)
+                h = H("h1", 0, 100, 100, cfg["h0"] + cfg["pdelta"] + 50, cfg["pdelta"] + 50, meta="raw:" + raw, fwd=fwd)
+                h["extra"] = ex
+                sc = {"cfg": cfg, "invs": CLASS_INVS, "htlcs": [h], "probe": []}
+                jobs.append({"run": runno, "scen": sc, "sched": [{"a": "htlc", "i": 1}], "drain": True, "tag": "class-raw", "payload": True,
+                             "rand": {"seed": rng.getrandbits(40), "steps": 0}})
+                runno += 1
+    return jobs
+
+def garbage_jobs(seed, n, start_run=1):
+    """C06: arbitrary metadata bytes and extreme numeric fields; every call must be answered once, no panic"""
+    rng = random.Random(seed ^ 0x6a)
+    U64 = 2**64 - 1
+    jobs = []
+    big = [0, 1, 2**31, 2**32, 2**63 - 1, 2**63, U64 - 1, U64]
+    # the HTLC's own amount is what the node really received: E8 keeps the sum per hash below 2^64
+    amts = [0, 1, 100, 2**31, 2**40, 2**60]
+    for k in range(n):
+        cfg = dict(rng.choice([CFG_A, CFG_B, CFG_C]))
+        hs = []
+        for _ in range(rng.randint(1, 3)):
+            c = rng.random()
+            if c < 0.4:
+                L = rng.choice([0, 1, 2, 3, 5, 9, 17, 40])
+                raw = bytes(rng.choice([0, 1, 0xfd, 0xfe, 0xff, 0x80, 0xe9, rng.randrange(256)]) for _ in range(L)).hex()
+                h = H("h1", 0, rng.choice(amts), rng.choice(big), rng.choice([0, 1, 2**32 - 1, 500]), rng.choice([-2**63, -1, 0, 2**63 - 1, 100]), meta="raw:" + raw)
+            elif c < 0.8:
+                # a well-formed trampoline request with extreme numbers (amount field, totals, expiries)
+                inv = rng.choice([1, 2])
+                h = H("h1", inv, rng.choice(amts), rng.choice(big + [100]), rng.choice([0, 2**32 - 1, 200]),
+                      rng.choice([-2**63, -1, 0, 39, 40, 2**63 - 1]), decl=rng.choice(big), decl_len=rng.choice([-1, -2, 0, 8, 9]))
+            else:
+                h = H("h1", rng.choice([1, 7, 8, 9, 10]), 100, 100, 200, 100, fwdmsat=rng.random() < 0.7)
+            hs.append(h)
+        sc = {"cfg": cfg, "invs": CLASS_INVS, "htlcs": hs, "probe": []}
+        jobs.append({"run": start_run + k, "scen": sc, "rand": {"seed": rng.getrandbits(40), "steps": rng.randint(5, 30), "maxclock": 6},
+                     "drain": True, "tag": "garbage"})
+    return jobs
